@@ -34,7 +34,9 @@ class Acc:
     def viol(self, prop: str, clause: str, detail: str, key_parts, case: Optional[dict] = None,
              site: str = "", shape: str = ""):
         fp = "|".join((clause, site, shape))
-        key = hashlib.sha256(repr((clause, key_parts)).encode()).hexdigest()[:16]
+        from .families import get_labeling
+        lab = get_labeling()
+        key = hashlib.sha256(repr((clause, key_parts) if lab is None else (clause, key_parts, lab)).encode()).hexdigest()[:16]
         v = {"property": prop, "fp": fp, "key": key, "clause": clause, "detail": detail}
         nsame = sum(1 for x in self.viols if x["fp"] == fp and "case" in x)
         if case is not None and nsame < 3:
@@ -117,7 +119,10 @@ def reproduction_snippet(case: dict, clause: str, detail: str) -> str:
     """A plain function that re-creates the failing input with nothing but the library (the oracle stays in mc)."""
     head = f"# {clause}\n# {detail[:300]}\n"
     if isinstance(case.get("graph"), list):
-        g = {str(i): [str(t) for t in row] for i, row in enumerate(case["graph"])}
+        lab = case.get("labeling")
+        nm = (lambda i: f"{lab['prefix']}{lab['names'][i]}") if lab else str
+        order = lab["insertion_order"] if lab else range(len(case["graph"]))
+        g = {nm(i): [nm(t) for t in case["graph"][i]] for i in order}
         stages = {"0": [], "J": ["join_returns"], "JL": ["join_returns", "restructure_loop"]}.get(
             str(case.get("stage")), ["join_returns", "restructure_loop", "restructure_branch"])
         body = "".join(f"    scfg.{st}()\n" for st in stages)
@@ -256,6 +261,10 @@ def run_replay(path: str) -> int:
     data = json.load(open(path))
     prop = data["property"]
     mod = importlib.import_module(f"mc.props.{prop.lower()}")
+    lab = (data.get("case") or {}).get("labeling")
+    if lab:
+        from .families import set_labeling
+        set_labeling((lab["prefix"], lab["names"], lab["insertion_order"]))
     acc: Acc = mod.replay(data["case"])
     same = [v for v in acc.viols if v["clause"] == data.get("clause")] or acc.viols
     for v in same[:5]:
